@@ -15,7 +15,7 @@ PROPS = {
         level_note="the version attribute is rewritten with the HDF5 C API; the library version is read from a freshly created file",
         enum_text="cube [lib-2,lib+2]^3 x {ReadOnly,ReadWrite} x {None,Force} (500 opens), 8 extreme values per component, "
                   "ordering laws for all 15625 ordered pairs of the cube",
-        quick=dict(cases=1500, size=40, workers=16, timeout=900),
+        quick=dict(cases=8000, size=40, workers=16, timeout=900),
         thorough=dict(cases=70000, size=40, workers=16, timeout=7200),
         rule="tape -> (x,y,z) near the library version / extreme / arbitrary int, mode, Force flag; the version attribute "
              "of a valid file is rewritten with the HDF5 C API and File::open is compared with the statement; or three "
